@@ -115,6 +115,10 @@ def gen_typed(rnd):
     if parses(full):
         return None
     line0 = len(full.split("\n")) - 1
+    if rnd.random() < 0.25:
+        # the same document with CRLF line ends (the text fallback slices the signature out of the text)
+        full = full.replace("\n", "\r\n")
+        tags = list(tags) + ["typed:crlf"]
     return full, list(tags) + ["typed:" + shape + (":fixture" if is_fixture else ":test")], {
         "line0": line0, "fn": name, "params": params, "fixture": is_fixture, "scope": scope if is_fixture else None}
 
